@@ -585,6 +585,55 @@ def row_return_part(ctx):
                       'expected': repr(want[i])[:200] if i is not None else len(want)})
 
 
+def equal_values_part(ctx):
+    """values that compare equal but are not the same value (1 / True / 1.0, Decimal('1.10') / Decimal('1.1'), one instant at
+    two UTC offsets) in one column: results(), process() and datastream() hand out the very values the steps produced"""
+    import datetime
+    import decimal
+    rep = ctx.report
+    rng = ctx.rng('equal-values')
+    tz2 = datetime.timezone(datetime.timedelta(hours=2))
+    pools = {'int-bool-float': [1, True, 1.0, 0, False, 0.0, 2, 'x'],
+             'decimal-scales': [decimal.Decimal('1.10'), decimal.Decimal('1.1'), decimal.Decimal('1.100'), decimal.Decimal('2'), decimal.Decimal('2.0')],
+             'datetime-offsets': [datetime.datetime(2020, 1, 1, 12, 0, tzinfo=datetime.timezone.utc), datetime.datetime(2020, 1, 1, 14, 0, tzinfo=tz2),
+                                  datetime.datetime(2020, 1, 1, 13, 0, tzinfo=tz2)]}
+
+    def exact(tables):
+        return [[sorted((k, repr(v)) for k, v in r.items()) for r in t] for t in tables]
+    for j in range(ctx.n(18, 120)):
+        name = sorted(pools)[j % 3]
+        n = [3, 12, 150][(j // 3) % 3]
+        data = [{'k': i, 'v': rng.choice(pools[name])} for i in range(n)]
+        steps = [[], [lambda row: None], [DF.add_field('z', 'integer', 0)]][j % 3 if j % 2 else 0]
+        case = {'equal-but-distinct-values': name, 'rows': n, 'steps': len(steps)}
+        try:
+            with quiet():
+                via_results = exact(Flow(copy.deepcopy(data), *steps).results()[0])
+                ds = Flow(copy.deepcopy(data), *steps).datastream()
+                via_ds = exact([list(r) for r in ds.res_iter])
+                collected = []
+
+                def collector(rows):
+                    cur = []
+                    collected.append(cur)
+                    for r in rows:
+                        cur.append(copy.deepcopy(r))
+                        yield r
+                Flow(copy.deepcopy(data), *steps, collector).process()
+                via_process = exact(collected)
+        except Exception as e:  # noqa
+            rep.case('equal-values', case, nontrivial=False)
+            rep.fail('equal-values:raises', case, repr(e)[:300])
+            continue
+        rep.case('equal-values', case)
+        if via_results != via_ds:
+            i = next((i for i, (a, b) in enumerate(zip(via_results[0], via_ds[0])) if a != b), None)
+            rep.fail('api:results-differs-from-datastream:equal-values', case,
+                     {'row': i, 'results': via_results[0][i] if i is not None else None, 'datastream': via_ds[0][i] if i is not None else None})
+        if via_process != via_ds:
+            rep.fail('api:process-differs-from-datastream:equal-values', case, {})
+
+
 def run(ctx):
     rep = ctx.report
     rep.rule = ('(a) every kind of link object through Flow (dispatch); (b) random well-typed pipelines of 1-6 Layer-A steps on '
@@ -599,6 +648,7 @@ def run(ctx):
     retain_then_drop_part(ctx)
     user_part(ctx)
     row_return_part(ctx)
+    equal_values_part(ctx)
     from .. import pycorr
     pycorr.run(ctx)
 
